@@ -75,7 +75,10 @@ def run_one(item):
                                stdout=subprocess.PIPE, stderr=subprocess.STDOUT, text=True)
             rules = re.findall(r'rule (\S+), instance', r.stdout)
             want = [e.split('=', 1)[1] if '=' in e else e for e in expect if '=' not in e or e.startswith(pid + '=')]
-            hit = r.returncode == 1 and 'VIOLATION property=%s' % pid in r.stdout and (not want or any(x in rules for x in want))
+            if expect == ['<silent>']:
+                hit = r.returncode == 0 and 'VIOLATION' not in r.stdout
+            else:
+                hit = r.returncode == 1 and 'VIOLATION property=%s' % pid in r.stdout and (not want or any(x in rules for x in want))
             ok_all = ok_all and hit
             results.append('%s exit=%d rules=%s%s' % (pid, r.returncode, sorted(set(rules)), '' if hit else '  <-- expected %s\n%s' % (want, r.stdout[-1500:])))
         return name, ok_all, '; '.join(results)
@@ -108,6 +111,10 @@ def main():
             if args and not any(a in m['name'] for a in args):
                 continue
             todo.append((m['name'], [tuple(e) for e in m['edits']], m['props'], m.get('expect', [])))
+        for m in getattr(M, 'NEUTRAL', []):
+            if args and not any(a in m['name'] for a in args):
+                continue
+            todo.append(('neutral/' + m['name'], [tuple(e) for e in m['edits']], m['props'], ['<silent>']))
     except ImportError:
         pass
     for name, path in items:
